@@ -53,7 +53,7 @@ CHECKS = {
          "All documents of a grammar (key subsets and orders, 5 sibling value shapes incl. nested keys spelled info, 6 info dictionaries, 04:info spelling, trailers) go through the real Metainfo::from_bencode; for every accepted one info_hash() must equal SHA-1 of the byte span of the top-level info value found by the harness's own span parser.",
          "reference span parser harness/src/refb.rs; duplicate top-level keys not in the alphabet", "DESIGN.md C05"),
  "C07": ("exploration", ENUM, "E-ENUM",
-         "For every message kind, products of a 14-value boundary alphabet per u32 field, 9 payload sizes up to and beyond the frame limit, 36 hash/id patterns and every bit vector up to 17 (quick) / 21 (thorough) bits: emitted bytes equal the reference BEP3 encoder, Frame::parse of those bytes (alone and followed by junk) yields the same fields, consumes exactly the message and re-serialises identically; bitfield bit order checked in both directions.",
+         "For every message kind, products of a 14-value boundary alphabet per u32 field, 9 payload sizes up to and beyond the frame limit, 36 hash/id patterns and every bit vector up to 19 (quick) / 24 (thorough) bits: emitted bytes equal the reference BEP3 encoder, Frame::parse of those bytes (alone and followed by junk) yields the same fields, consumes exactly the message and re-serialises identically; bitfield bit order checked in both directions.",
          "reference codec harness/src/refwire.rs written from BEP3; nothing claimed outside the field alphabet", "DESIGN.md C07"),
  "C15": ("exploration", ENUM, "E-ENUM",
          "Every value of three index-addressable families (depth<=3, width<=2 quick / 3 thorough, leaf alphabet incl. i64 extremes, delimiter-like strings, prefix-related keys) is encoded by the real BEncoder and compared byte for byte with the harness's canonical encoder, decoded by the real BDecoder and compared with the original, and re-encoded; non-canonical key order decodes to the same value.",
